@@ -104,6 +104,9 @@ def check_interrupted(run, case):
             run.ev('trainings_interrupted_by_sigint')
             if not o['saved']:
                 run.ev('interrupted_trainings_that_saved_nothing'); continue
+            if o['rc'] != 0:
+                # killed while it was writing the ruleset: the trainer did not claim that this training completed, the partial tree is not judged
+                run.ev('interrupted_trainings_killed_while_saving'); continue
             run.ev('interrupted_trainings_that_left_a_ruleset')
             O = omen(o['path'])
             if all(O[f] == R[f] for f in ('IP.level', 'CP.level', 'EP.level', 'LN.level')):
